@@ -165,6 +165,15 @@ func (c *TLSServerConfig) loadCertificate(tlsCfg *tls.Config) error {
 	return err
 }
 
+// redactFileOrBase64 returns the name of a certificate or key file as it may be logged:
+// inline "data:" values carry the key material itself and are replaced by a placeholder.
+func redactFileOrBase64(name string) string {
+	if strings.HasPrefix(name, "data:") {
+		return "data:xxxxx"
+	}
+	return name
+}
+
 func loadX509KeyPair(certFile, keyFile string) (tls.Certificate, error) {
 	certPEMBlock, err := ReadFileOrBase64(certFile)
 	if err != nil {
